@@ -182,48 +182,46 @@ Section P.
   Lemma same_elem_refl n : same_elem n n.
   Proof. repeat split. Qed.
 
-  (* A zero-size / invalid shape that carries a `filter` attribute: convert_group goes on to filter::convert, which for an
-     element without a bounding box yields no filter and generates nothing (filter_facts, cut from filter.rs: hypothesis
-     Hflt); without clip-path / mask attributes nothing else touches the cache and no group is left. *)
+  (* A zero-size / invalid shape that carries a `filter` attribute - with any clip-path / mask link (dd154cd): convert_group
+     resolves the filters of an element without content FIRST; when that leaves the cache alone and yields nothing for an
+     element without a bounding box (filter_facts, cut from filter.rs, for filter functions; Err for missing links), the
+     element is dropped before its clip-path / mask are looked at: no group, no counter moved, no cache entry. *)
   Lemma og_append_nil g : og_append g [] = g.
   Proof. destruct g. unfold og_append. cbn. rewrite app_nil_r. reflexivity. Qed.
 
+  Definition filter_inert (a : attrs) : Prop :=
+    forall st c', snd (res_filter a st None c') = c' /\
+                  (fst (res_filter a st None c') = None \/ fst (res_filter a st None c') = Some []).
+  Definition empty_has_no_bbox : Prop := forall g, og_ch g = [] -> obj_bbox g = None.
+
   Lemma empty_shape_group_filter t a st p c collect :
-    tag_in t impl_shape_tags = true -> a_clip a = None -> a_mask a = None ->
-    (forall g, og_ch g = [] -> obj_bbox g = None) ->
-    (forall c', res_filter a st None c' = (Some [], c')) ->
+    tag_in t impl_shape_tags = true -> empty_has_no_bbox -> filter_inert a ->
     (forall c' g', collect c' g' = (c', g')) ->
     push_group (CG (Some t) a st false p c collect) = (c, p).
   Proof.
-    intros Ht Hc Hm Hbb Hflt Hcol. destruct (shape_tags_graphic t Ht) as (_ & Hg & _).
+    intros Ht Hbb Hflt Hcol. destruct (shape_tags_graphic t Ht) as (_ & Hg & _).
     unfold convert_group. rewrite Hcol.
     cbn [group_run group_steps group_step_run].
-    unfold is_empty. cbn [forallb empty_terms eval_empty ge_g og_ch ge_cache ge_bbox ge_filters ge_clip ge_mask]. rewrite Hg.
+    unfold is_empty. cbn [forallb empty_terms eval_empty ge_g og_ch ge_cache ge_bbox ge_filters ge_clip ge_mask ge_pre]. rewrite Hg.
     cbn [negb andb].
     destruct (has_filter_attr a) eqn:Hf; cbn [negb andb]; [|reflexivity].
-    rewrite Hbb by reflexivity. rewrite Hc, Hm.
-    destruct (st_in_clip st) eqn:Hin; cbn [ge_cache ge_bbox ge_g ge_clip ge_mask ge_filters].
-    - match goal with |- context [required ?a1 ?a2 ?a3 ?a4 ?x] => destruct (required a1 a2 a3 a4 x) end;
-        cbn [push_group ge_cache ge_g og_ch ge_filters andb]; rewrite ?og_append_nil; reflexivity.
-    - destruct (a_filter a) eqn:Ef; try (unfold has_filter_attr in Hf; rewrite Ef in Hf; discriminate);
-        [ | rewrite Hflt ];
-        cbn [ge_cache ge_bbox ge_g ge_clip ge_mask ge_filters];
-        match goal with |- context [required ?a1 ?a2 ?a3 ?a4 ?x] => destruct (required a1 a2 a3 a4 x) end;
-        cbn [push_group ge_cache ge_g og_ch ge_filters andb]; rewrite ?og_append_nil; reflexivity.
+    rewrite Hbb by reflexivity. unfold group_filters. cbn [ge_cache ge_bbox].
+    destruct (st_in_clip st); [reflexivity|].
+    destruct (a_filter a); try reflexivity.
+    destruct (Hflt st c) as [H1 H2]. destruct (res_filter a st None c) as [r c']. cbn in H1, H2. subst c'.
+    destruct H2 as [-> | ->]; reflexivity.
   Qed.
 
   Theorem zero_shape_filter_noop t a ch top clip st c p :
-    tag_in t impl_shape_tags = true -> shape_valid t a = false -> a_clip a = None -> a_mask a = None ->
-    (forall g, og_ch g = [] -> obj_bbox g = None) ->
-    (forall c', res_filter a st None c' = (Some [], c')) ->
+    tag_in t impl_shape_tags = true -> shape_valid t a = false -> empty_has_no_bbox -> filter_inert a ->
     CE (Node (Some t) a ch) top clip st c p = (c, p).
   Proof.
-    intros Ht Hv Hc Hm Hbb Hflt. destruct (shape_tags_graphic t Ht) as (Hg & _ & Hu & Hs).
+    intros Ht Hv Hbb Hflt. destruct (shape_tags_graphic t Ht) as (Hg & _ & Hu & Hs).
     destruct (is_visible (Some t) a) eqn:Hvis; [|apply invisible_noop; exact Hvis].
     rewrite conv_elem_eq. unfold elem_body.
     destruct clip; cbn [first_exit elem_dispatch clip_dispatch]; rewrite Hg, Hvis; cbn [negb andb];
     destruct t; try discriminate Ht;
-    (apply empty_shape_group_filter; [reflexivity | exact Hc | exact Hm | exact Hbb | exact Hflt |
+    (apply empty_shape_group_filter; [reflexivity | exact Hbb | exact Hflt |
       intros; cbv [tag_in existsb clip_shape_tags impl_shape_tags tag_eqb tag_idx N.eqb Pos.eqb orb]; rewrite ?Hv; reflexivity]).
   Qed.
 
@@ -385,7 +383,7 @@ Qed.
 Lemma tables_lock :
   elem_dispatch = [D_TagName; D_GraphicOrStructural; D_Visible; D_Use; D_Switch; D_Group] /\
   clip_dispatch = [D_TagName; D_GraphicOrStructural; D_Visible; D_Use; D_Group] /\
-  group_steps = [GS_EmptyNoFilterAttr; GS_ObjectBBox; GS_Clip; GS_Mask; GS_Filters; GS_NotRequired; GS_EmptyNoFilters; GS_Boxes] /\
+  group_steps = [GS_EmptyNoFilterAttr; GS_ObjectBBox; GS_EmptyFiltersFirst; GS_Clip; GS_Mask; GS_Filters; GS_NotRequired; GS_EmptyNoFilters; GS_Boxes] /\
   visible_tests = [V_DisplayNotNone; V_ValidTransform; V_ConditionPassed] /\
   g_or_use_tags = [T_G; T_Use] /\ structural_tags = [T_G; T_Switch; T_Svg].
 Proof. repeat split. Qed.
